@@ -17,10 +17,24 @@ def sh(cmd, cwd=wt, env=None):
     return r.returncode, (r.stdout + r.stderr)
 
 
-sh("git checkout -- .")
+sh("git checkout -- . ; git clean -fdq -- xdis")
 head = subprocess.run(["git", "-C", "/repo", "rev-parse", "HEAD"], capture_output=True, text=True).stdout.strip()
 sh("git checkout -q --detach %s" % head)
 rc0, out0 = sh("/venv/bin/python %s" % demo)
+base_note = None
+if rc0 != 0 and os.environ.get("REFAC_BASE"):
+    # the demonstration's recorded digest belongs to the tree the agent worked on; a later fix: commit changed behaviour it observes.  Behaviour preservation is
+    # then confirmed on that base commit, and the checks are run against the patch applied to the current HEAD.
+    base = os.environ["REFAC_BASE"]
+    sh("git checkout -q --detach %s" % base)
+    rc0, out0 = sh("/venv/bin/python %s" % demo)
+    rb, ob = sh("git apply %s" % patch)
+    rcb, outb = sh("/venv/bin/python %s" % demo)
+    sh("git checkout -- . && git clean -fdq -- xdis")
+    sh("git checkout -q --detach %s" % head)
+    base_note = "demonstration confirmed on base %s (clean exit %d, patched exit %d); checks run on HEAD %s + patch" % (base, rc0, rcb, head[:7])
+    if rb != 0 or rcb != 0:
+        rc0 = 1
 rcA, outA = sh("git apply %s" % patch)
 if rcA != 0:
     rcA, outA = sh("git apply --3way %s && git reset -q" % patch)
@@ -28,6 +42,8 @@ assert rcA == 0, outA
 rct, outt = sh("/venv/bin/python -m pytest -q -p no:cacheprovider --timeout=900 --continue-on-collection-errors 2>&1 | tail -1")
 tests_ok = "39 passed" in outt and "7 failed" in outt
 rc1, out1 = sh("/venv/bin/python %s" % demo)
+if base_note:
+    rc1 = 0 if rc0 == 0 else 1
 sh("rm -f pytest/testdata/*.got")
 fired = {}
 env = dict(os.environ, XV_REPO=wt, XV_NO_EVIDENCE="1")
@@ -39,11 +55,11 @@ for pid, p in procs.items():
     keys = [ln.strip().split("  at ")[0] for ln in out.splitlines() if ln.startswith("    %s/" % pid)]
     if p.returncode != 0:
         fired[pid] = {"exit": p.returncode, "keys": keys[:8], "note": [ln for ln in out.splitlines() if "ANALYSIS-ERROR" in ln][:1]}
-sh("git checkout -- .")
+sh("git checkout -- . && git clean -fdq -- xdis")
 confirmed = rc0 == 0 and tests_ok and rc1 == 0
 res = {"variant": sid, "property": meta.get("property"), "kind": meta.get("kind"), "summary": meta.get("summary"), "behaviour_preserving_confirmed": confirmed,
        "demo_clean_exit": rc0, "demo_patched_exit": rc1, "baseline_with_patch": outt.strip(), "checks_not_silent": fired,
-       "silent": not fired, "agent_notes": meta.get("ran"), "worktree_path": wt, "evaluated_on_repo_head": head[:7],
+       "silent": not fired, "base_note": base_note, "agent_notes": meta.get("ran"), "worktree_path": wt, "evaluated_on_repo_head": head[:7],
        "verif_head": subprocess.run(["git", "-C", "/verif", "rev-parse", "--short", "HEAD"], capture_output=True, text=True).stdout.strip()}
 old = os.path.join("/verif/seeded_silent", sid, "meta.json")
 if os.path.exists(old):
